@@ -244,6 +244,29 @@ pub fn gen_c16(run: &mut crate::Run, seed: u64, thorough: bool) {
             //  (a) a later batch [fresh M2, M1] (the executed message NOT in front) must not revive M1;
             //  (b) an outsider's own (failing) consumption attempt at the gateway, followed by a re-submission of the old
             //      approval, must not revive it either
+            // directed (once per history): a PENDING approval is not replaced by a later one for the same id with other content —
+            // the application acts on the first content only, and only once
+            if step == 5 {
+                let appx = if h % 2 == 0 { example.clone() } else { mini.clone() };
+                let (p1, p2) = (b"first-content".to_vec(), b"second-content".to_vec());
+                let idx = format!("pending-{h}").into_bytes();
+                let m1 = Msg { chain: b"chain0".to_vec(), id: idx.clone(), src: src.clone(), contract: appx.clone(), ph: keccak(&p1) };
+                let mut m2 = m1.clone();
+                m2.ph = keccak(&p2);
+                for (k, m) in [&m1, &m2].iter().enumerate() {
+                    let pf = g.honest(&ws, &approve_data_hash(&g.env, &[(*m).clone()]));
+                    g.approve(&[(*m).clone()], &pf, if k == 0 { "pending-approve-first-content" } else { "pending-approve-second-content" });
+                }
+                g.q_msg(&m1);
+                g.q_msg(&m2);
+                g.run.op(&format!("app.execute {} {} {} {} {}", appx.tok(), hx(&m2.chain), hx(&m2.id), hx(&m2.src), hx(&p2)), "pending-deliver-second-content");
+                g.run.op("app.count", "q");
+                g.run.op(&format!("app.execute {} {} {} {} {}", appx.tok(), hx(&m1.chain), hx(&m1.id), hx(&m1.src), hx(&p1)), "pending-deliver-first-content");
+                g.run.op("app.count", "q");
+                g.run.op(&format!("app.execute {} {} {} {} {}", appx.tok(), hx(&m2.chain), hx(&m2.id), hx(&m2.src), hx(&p2)), "pending-deliver-second-content-after-first");
+                g.run.op("app.count", "q");
+                g.q_msg(&m1);
+            }
             if step == 3 {
                 let app1 = mini.clone();
                 let pl = b"directed-payload".to_vec();
